@@ -85,3 +85,36 @@ extern "C" void run_main()
     verif_assert(calls_after_done == 0, "the receiver is signalled after the last call returned");
     verif_cover(0);
 }
+
+// ---- concurrent variant (mode=res): the two spawned worker tasks run as two harness threads under every schedule ------
+#ifdef CONC
+static void (*conc_go[2])() = {nullptr, nullptr};
+extern "C" void brc_init()
+{
+    verif_pool_workers = 2;
+    verif_local_worker = verif_nondet_range(0, 1);
+    shape_n = (int) verif_nondet_range(0, NMAX);
+    verif_pool* pool = new verif_pool();
+    ex::thread_pool_scheduler sched(pool);
+    using just_t = decltype(ex::just(42));
+    pika::thread_pool_bulk_detail::thread_pool_bulk_sender<just_t, int, body_f> snd{std::move(sched), ex::just(42), (int) shape_n, body_f{}};
+    auto* op = new auto(ex::connect(std::move(snd), recv{}));
+    ex::start(*op);
+}
+extern "C" void brc_thread_0()
+{
+    if (verif_nspawned > 0) verif_spawned[0](ptd::thread_restart_state::signaled);
+}
+extern "C" void brc_thread_1()
+{
+    if (verif_nspawned > 1) verif_spawned[1](ptd::thread_restart_state::signaled);
+}
+extern "C" void brc_final()
+{
+    verif_assert(calls == shape_n, "f is invoked exactly once for every index in [0,n) (n calls, none repeated, none out of range)");
+    verif_assert(out_of_range == 0, "f is invoked for no index outside [0,n)");
+    verif_assert(n_set_value == 1 && n_set_error == 0 && n_set_stopped == 0, "the receiver is signalled exactly once (value)");
+    verif_assert(calls_after_done == 0, "the receiver is signalled after the last call returned");
+    verif_cover(0);
+}
+#endif
